@@ -296,6 +296,10 @@ def serialOf (d : Bytes) : Nat := unle32 (readAt d 4 4)
 /-- `request[1]` -/
 def codeOf (b : Bytes) : Nat := (b.getD 1 0).toNat
 
+/-- what a read into a buffer of `bufSize` bytes makes of a datagram: the kernel silently drops
+    what does not fit (UDP) or leaves it for a read that never happens (TCP) -/
+def received (bufSize : Nat) (d : Bytes) : Bytes := d.take bufSize
+
 /-- what the driver hands back: `none` = nil (no reply expected), `some none` = error / timeout -/
 def driverReply (noReplyCode : Nat) (path : Path) (serial : Nat) (req : Bytes) (arrivals : List Bytes) :
     Option (Option Bytes) :=
